@@ -422,8 +422,10 @@ def run_case(c):
     obj_en = [F(x) for x in cqm.objective.energies(sl)] if mat else []
     if own and mat:
         # the same samples as an ITERATOR, and as an iterator of (row, labels) samples only
+        # (a (row, labels) sample with NO columns is an empty 1-d array: it cannot say whether it is one sample of zero
+        # variables or no sample at all - the list form of it is refused by as_samples - so that form needs a column)
         if [F(x) for x in cqm.objective.energies(iter(sl))] != obj_en \
-                or [F(x) for x in cqm.objective.energies(iter(make_samples_like('rows_own', mat, cols, dtype, rls)))] != obj_en:
+                or (cols and [F(x) for x in cqm.objective.energies(iter(make_samples_like('rows_own', mat, cols, dtype, rls)))] != obj_en):
             py_fail = "objective.energies(iterator of samples) differs from energies(list of the same samples)"
     rows = []
     soft_violated_feasible = False
